@@ -1,7 +1,7 @@
 SPECIFICATION Spec
 CONSTANTS
   KindSet = {"att", "prep"}
-  ConcSet = {1, 2}
+  ConcSet = {2}
   ItemSet = {1}
   NodeCounts = {2}
   DefaultConc = 16
@@ -9,5 +9,10 @@ CONSTANTS
   HistClients = {"lighthouse", "teku"}
   HistOutcomes = {"accept", "reject", "treject", "hang"}
   Design = "asks"
+  MaxLat = 2
+  CanonOuts = {}
+  ConfSets = {}
+  OtherSets = {}
+  RefKind = "att"
 INVARIANTS TypeOK FlagSound TimeoutSignalHeard OfferedInFull SuccessIff ReturnsByTimeout Independence ClassifiedByNow
 CHECK_DEADLOCK FALSE
